@@ -24,8 +24,8 @@ torch.library.define("quanto::qbytes_mm", "(Tensor A, Tensor B, Tensor scales) -
 
 def qbytes_mm(activations: torch.Tensor, weights: torch.Tensor, output_scales: torch.Tensor) -> torch.Tensor:
     mm_dtype = output_scales.dtype
-    if activations.dtype == torch.int8 or weights.dtype == torch.int8:
-        # If one of the terms is an int the matmul might overflow
+    if activations.dtype == torch.int8 or weights.dtype == torch.int8 or mm_dtype == torch.float16:
+        # If one of the terms is an int, or if float8 data are accumulated in float16, the matmul might overflow
         mm_dtype = torch.float32
     activations = activations.to(mm_dtype)
     weights = weights.to(mm_dtype)
